@@ -5,7 +5,7 @@ import z3
 
 from . import models, seqops, spec_intrinsics as si
 from .core import Path, PyRaise
-from .interp_call import CallMixin, Frame
+from .interp_call import CallMixin, Frame, NoFeasiblePath
 from .interp_expr import ExprMixin
 from .interp_stmt import StmtMixin
 from .values import (BoundMethod, Closure, DictCell, ExcV, MapCell, ObjCell, OldView, Opaque, Ref, SeqCell, SeqV, Sym,
@@ -33,7 +33,7 @@ class Interp(ExprMixin, StmtMixin, CallMixin):
             si.seq_eq_at: self.i_seq_eq_at, si.unchanged: self.i_unchanged, si.is_nan: self.i_is_nan,
             si.is_finite: self.i_is_finite, si.f32_round: self.i_f32_round, si.float_eq: self.i_float_eq,
             si.f32_bytes: self.i_f32_bytes, si.f64_bytes: self.i_f64_bytes, si.ghost: self.i_ghost,
-            si.fresh_int: self.i_fresh_int,
+            si.fresh_int: self.i_fresh_int, si.f32_of_bytes: self.i_f32_of_bytes, si.f64_of_bytes: self.i_f64_of_bytes,
         })
         self.intrinsics = {}
         self.callee_contracts = callee_contracts or {}
@@ -93,7 +93,10 @@ class Interp(ExprMixin, StmtMixin, CallMixin):
         lo, hi, fn = args
         i = z3.Int(self.path.fresh_name("q"))
         rng = z3.And(i >= to_term(lo, "int"), i < to_term(hi, "int"))
-        val = self.pure(lambda: models._as_boolsym(self, self.call_value(fn, [mk("int", i)], {})), assume=rng)
+        try:
+            val = self.pure(lambda: models._as_boolsym(self, self.call_value(fn, [mk("int", i)], {})), assume=rng)
+        except NoFeasiblePath:
+            return is_all  # empty range under the path condition
         body = to_term(val, "bool")
         if isinstance(lo, int) and isinstance(hi, int) and hi - lo <= 64:
             parts = [z3.substitute(body, (i, z3.IntVal(k))) for k in range(lo, hi)]
@@ -121,7 +124,10 @@ class Interp(ExprMixin, StmtMixin, CallMixin):
             tb = self.truthy(b)
             return tb if isinstance(tb, bool) else mk("bool", tb)
         if isinstance(b, Closure):
-            val = self.pure(lambda: models._as_boolsym(self, self.call_value(b, [], {})), assume=ta)
+            try:
+                val = self.pure(lambda: models._as_boolsym(self, self.call_value(b, [], {})), assume=ta)
+            except NoFeasiblePath:
+                return True
             tb = to_term(val, "bool")
         else:
             tb = self.truthy(b)
@@ -199,3 +205,18 @@ class Interp(ExprMixin, StmtMixin, CallMixin):
 
     def i_fresh_int(self, I, args, kw):
         return Sym("int", z3.Int(self.path.fresh_name(args[0] if args else "g")))
+
+    def _fp_of_bytes(self, args, size):
+        from .values import F32, F64, RNE
+        data, pos = args
+        seq = self.as_seq(data)
+        arr, _, _ = seqops.as_array(seq)
+        p = to_term(pos, "int")
+        bs = [z3.Select(arr, z3.simplify(p + k)) for k in range(size)]
+        return models.fp_of_byte_terms(bs)
+
+    def i_f32_of_bytes(self, I, args, kw):
+        return self._fp_of_bytes(args, 4)
+
+    def i_f64_of_bytes(self, I, args, kw):
+        return self._fp_of_bytes(args, 8)
